@@ -1873,11 +1873,17 @@ mzd_t *mzd_extract_l(mzd_t *L, mzd_t const *A) {
   rci_t k = MIN(A->nrows, A->ncols);
   if (L != NULL) { assert(L->nrows == k && L->ncols == k); }
   L = mzd_submatrix(L, A, 0, 0, k, k);
+  word const mask_end = L->high_bitmask;
+  wi_t const last     = L->width - 1;
   for (rci_t i = 0; i < L->nrows - 1; i++) {
     word *row = mzd_row(L, i);
-    if (m4ri_radix - (i + 1) % m4ri_radix)
-      mzd_clear_bits(L, i, i + 1, m4ri_radix - (i + 1) % m4ri_radix);
-    for (wi_t j = (i / m4ri_radix + 1); j < L->width; j++) { row[j] = 0; }
+    /* clear the columns > i, but nothing beyond the last column (L may be a window) */
+    wi_t const block = (i + 1) / m4ri_radix;
+    word mask_begin  = __M4RI_RIGHT_BITMASK(m4ri_radix - (i + 1) % m4ri_radix);
+    if (block == last) mask_begin &= mask_end;
+    row[block] &= ~mask_begin;
+    for (wi_t j = block + 1; j < last; j++) { row[j] = 0; }
+    if (block < last) row[last] &= ~mask_end;
   }
   return L;
 }
